@@ -166,15 +166,37 @@ def ensure_facts(config="all", repo=None, force=False):
         tag = "c" + h[:15]
         _prune_cache()
     d = os.path.join(CACHE, "%s-%s" % (config, tag))
+    if force:
+        # a forced (thorough-tier) extraction gets its own directory: several checks may run at the same time
+        d += "-forced%d" % os.getpid()
+        for old in os.listdir(CACHE) if os.path.isdir(CACHE) else []:
+            po = os.path.join(CACHE, old)
+            try:
+                if "-forced" in old and time.time() - os.path.getmtime(po) > 6 * 3600:
+                    shutil.rmtree(po, ignore_errors=True)
+            except OSError:
+                pass
     stamp = os.path.join(d, "HASH")
     if not force and os.path.exists(stamp) and open(stamp).read().strip() == h:
         return d, {"cached": True, "extract_s": 0.0, "hash": h}
-    if os.path.exists(d):
-        shutil.rmtree(d)
-    os.makedirs(d)
-    dt = extract(repo, config, d)
-    with open(stamp, "w") as fh:
+    # extract into a private directory and swap it in: another check may be reading or extracting the same slot
+    tmpd = "%s.tmp%d" % (d, os.getpid())
+    if os.path.exists(tmpd):
+        shutil.rmtree(tmpd)
+    os.makedirs(tmpd)
+    dt = extract(repo, config, tmpd)
+    with open(os.path.join(tmpd, "HASH"), "w") as fh:
         fh.write(h)
+    if os.path.exists(d):
+        if os.path.exists(stamp) and open(stamp).read().strip() == h and not force:
+            shutil.rmtree(tmpd, ignore_errors=True)       # somebody else finished the same extraction meanwhile
+            return d, {"cached": True, "extract_s": round(dt, 1), "hash": h}
+        old = "%s.old%d" % (d, os.getpid())
+        os.rename(d, old)
+        os.rename(tmpd, d)
+        shutil.rmtree(old, ignore_errors=True)
+    else:
+        os.rename(tmpd, d)
     return d, {"cached": False, "extract_s": round(dt, 1), "hash": h}
 
 
